@@ -1,5 +1,6 @@
 """Collection of classes that are used by the user to define the model and grids."""
 
+import math
 from abc import ABC, abstractmethod
 from dataclasses import dataclass, fields, is_dataclass
 from typing import Any
@@ -131,6 +132,13 @@ class LogspaceGrid(ContinuousGrid):
 
     """
 
+    def __post_init__(self) -> None:
+        super().__post_init__()
+        if self.start <= 0:
+            raise GridInitializationError(
+                "start must be positive for a logarithmic grid",
+            )
+
     def to_jax(self) -> Array:
         """Convert the grid to a Jax array."""
         return grid_helpers.logspace(self.start, self.stop, self.n_points)
@@ -242,10 +250,14 @@ def _validate_continuous_grid(
     valid_start_type = isinstance(start, int | float)
     if not valid_start_type:
         error_messages.append("start must be a scalar int or float value")
+    elif not math.isfinite(start):
+        error_messages.append("start must be finite")
 
     valid_stop_type = isinstance(stop, int | float)
     if not valid_stop_type:
         error_messages.append("stop must be a scalar int or float value")
+    elif not math.isfinite(stop):
+        error_messages.append("stop must be finite")
 
     if not isinstance(n_points, int) or n_points < 1:
         error_messages.append(
